@@ -34,10 +34,10 @@ Fixpoint count_byte (c : N) (s : list N) : nat :=
   | x :: t => if x =? c then S (count_byte c t) else count_byte c t
   end.
 
-Fixpoint list_eqb (a b : list N) : bool :=
+Fixpoint addr_list_eqb (a b : list N) : bool :=
   match a, b with
   | [], [] => true
-  | x :: a', y :: b' => (x =? y) && list_eqb a' b'
+  | x :: a', y :: b' => (x =? y) && addr_list_eqb a' b'
   | _, _ => false
   end.
 
@@ -172,7 +172,7 @@ Definition scheme_table : list (list N * (scheme * bool * bool)) :=
 Fixpoint assoc_str {A} (k : list N) (t : list (list N * A)) : option A :=
   match t with
   | [] => None
-  | (k', v) :: t' => if list_eqb k k' then Some v else assoc_str k t'
+  | (k', v) :: t' => if addr_list_eqb k k' then Some v else assoc_str k t'
   end.
 
 Definition to_lower (c : N) : N := if is_upper c then c + 32 else c.
